@@ -10,7 +10,7 @@ import z3
 
 from .. import kit, pathx, zx
 from ..harness import Obligations, unq, tofloat
-from ..stubs.common import MutRows, NPShim, USweep, maxdiff_terms, patched, sfloat, span_terms
+from ..stubs.common import KeyedUSweep, key_id, key_schedule, MutRows, NPShim, USweep, maxdiff_terms, patched, sfloat, span_terms
 from ..trace import symbolic, sym, val_of, lift, SymTracer
 
 ID = "C08"
@@ -59,6 +59,13 @@ def jobs(tier, seed):
                     continue
                 out.append(dict(name=f"compose-{solver}-{test}-{'+'.join(map(str, sq))}", kind="compose", solver=solver, test=test,
                                 ks=list(sq), devices=1, cost=(9 if solver == "pi" else 1) * sum(sq)))
+                if solver == "savi" and test == "span":
+                    # shuffled visiting order: the sweep depends on the pseudo-random key the solver threads through its calls
+                    out.append(dict(name=f"compose-savi-shuffle-{'+'.join(map(str, sq))}", kind="compose", solver=solver, test=test, shuffle=True,
+                                    ks=list(sq), devices=1, cost=2 * sum(sq)))
+            if solver == "savi" and test == "span":
+                for k in ks[:2]:
+                    out.append(dict(name=f"single-savi-shuffle-k{k}", kind="single", solver=solver, test=test, shuffle=True, ks=[k], devices=1, cost=k))
     for (n, bs, dv) in ([(1, 1, 1), (2, 1, 1), (3, 2, 1), (5, 2, 1), (3, 2, 2), (5, 4, 1)] if q else
                         [(1, 1, 1), (2, 1, 1), (3, 2, 1), (5, 2, 1), (3, 2, 2), (5, 4, 1), (7, 3, 1), (5, 2, 3), (4, 64, 4), (2, 1, 8)]):
         for solver in ("vi", "pi", "rvi", "pvi", "savi"):
@@ -100,8 +107,13 @@ def construct(job, pb, extra=None):
         kw["max_eval_iter"] = 2
     if name == "pvi":
         kw.update(period=2, clear_value_history_on_convergence=False)
+    if job.get("shuffle"):
+        kw.update(shuffle_states=True, random_seed=SHUFFLE_SEED)
     kw.update(extra or {})
     return kit.make_solver(name, pb, **kw)
+
+
+SHUFFLE_SEED = 3
 
 
 def run_scenario(job, ks):
@@ -124,8 +136,16 @@ def run_scenario(job, ks):
             pathx.CUR.assume(z3.And(gam > 0 if name == "pvi" else gam >= 0, gam <= 1, eps > 0))
             solver._setup_convergence_testing()
             thr = solver.conv_threshold
-            U = USweep(S, "U")
-            solver._update_values = lambda bs, a, e, g, v: U(v)
+            if job.get("shuffle"):
+                # the real _update_values (key splitting included) stays; only what happens with the key is abstracted
+                U = KeyedUSweep(S, "UK", key_schedule(SHUFFLE_SEED, sum(ks) + 1))
+                solver._jitted_shuffle_states = lambda subkey: (U.set_key(key_id(val_of(subkey))) or "shuffled", solver.batched_states, None)
+                solver._calculate_updated_value_scan_state_batches_pmap = lambda carry, inp: U(carry[3])
+                solver._unbatch_results = lambda x: x
+                solver._jitted_reorder_values = lambda idx, x: x
+            else:
+                U = USweep(S, "U")
+                solver._update_values = lambda bs, a, e, g, v: U(v)
             POL = z3.Function("POL", *([z3.RealSort()] * S), z3.IntSort())
             pol_calls = [0]
 
@@ -227,7 +247,7 @@ def reference_iterates(job, U, v0, n, gain0=None):
     its = [list(v0)]
     gains = [v0[-1]]  # RVI: the gain subtracted in a sweep is the last state's value before it
     for i in range(n):
-        nv = U.apply_terms(its[-1])
+        nv = U.apply_terms(its[-1], step=i) if getattr(U, "keyed", False) else U.apply_terms(its[-1])
         if name == "rvi":
             g_prev = gains[-1]
             nv = [zx.sub(x, g_prev) for x in nv]
@@ -281,7 +301,8 @@ def run_job(job):
         def cexf(m, p=p):
             return dict(kind="loop", solver=name, test=job.get("test"), ks=ks, gamma=zx.model_value(m, gam), eps=zx.model_value(m, eps),
                         V0=[zx.model_value(m, x) for x in p["v0"]],
-                        outs=[[zx.model_value(m, t) for t in U.apply_terms(inp)] for inp in U.log])
+                        outs=[[zx.model_value(m, t) for t in (U.apply_terms(inp, extra=[U.klog[j]]) if getattr(U, "keyed", False) else U.apply_terms(inp))]
+                              for j, inp in enumerate(U.log)])
         # threshold
         if name in ("vi", "savi", "pi"):
             thr_doc = doc_threshold(ob, pc, gam, eps)
@@ -484,7 +505,25 @@ def _real_run(job, g, e, V0, outs, ks, seed=0):
     return s, calls[0], its
 
 
+def shuffle_replay(job):
+    """shuffled semi-async VI on a concrete problem with several batches: solve(k1); solve(k2); ... against one solve(sum)"""
+    pb_kw = dict(S=7, A=2, E=2, bs=2)
+    runs = []
+    for ks in (job["ks"], [sum(job["ks"])]):
+        s = kit.make_solver("savi", kit.make_tab(pb_kw, 1), max_batch_size=2, shuffle_states=True, random_seed=SHUFFLE_SEED, epsilon=1e-12, gamma=0.9,
+                            convergence_test=job.get("test", "span"))
+        for k in ks:
+            s.solve(k)
+        runs.append(s)
+    a, b = runs
+    same = a.iteration == b.iteration and np.array_equal(np.asarray(a.values), np.asarray(b.values)) and np.array_equal(np.asarray(a.policy), np.asarray(b.policy))
+    return (not same), (f"savi shuffle_states=True solve{job['ks']}: iteration {a.iteration} values {np.asarray(a.values)}; single solve({sum(job['ks'])}): "
+                        f"iteration {b.iteration} values {np.asarray(b.values)}")
+
+
 def compose_replay(job, g, e, V0, outs):
+    if job.get("shuffle"):
+        return shuffle_replay(job)
     total = sum(job["ks"])
     while len(outs) < total:
         outs.append((outs[-1] if outs else V0) + 1.0 + np.arange(len(V0)))
